@@ -65,6 +65,23 @@ if "C05" in which:
         ("c05_with_pending", "with_pending_sum", "[R] holdings-with-pending is the sum of the two, absent = 0."),
     ])
 
+IMPE05 = """From Coq Require Import ZArith NArith List Bool String Reals.
+From Flocq Require Import Raux.
+From Alator Require Import Model.Num Model.Quirks Model.Cost Model.Exchange Model.Uist Model.Server Model.Broker
+  Model.Strategy Model.BrokerSys Proofs.ServerProofs Proofs.ExchangeProofs Proofs.BrokerLedgerProofs Proofs.EndToEnd05.
+Import ListNotations.
+Local Existing Instance RNum."""
+if "C05" in which:
+    gen("C05sys", "C05, second sentence, as ONE theorem about the composition broker + eager client + Uist server + "
+        "Uist exchange for an ARBITRARY client of the broker (Model/BrokerSys.v: deposits, withdrawals, liquidations, "
+        "orders of all six types, checks, in any order). `outstanding y` are this broker's orders the exchange still "
+        "holds (resting book, then buffer); `signed_outstanding y s` their signed quantity for symbol s. [R].", IMPE05, [
+        ("c05s_step", "bs_step_inv", "One operation preserves the system invariant: pending(s) = signed quantity of the orders the exchange still holds for s, keys unique, and no entry at all for a symbol with no outstanding order."),
+        ("c05s_pending_end_to_end", "c05_pending_end_to_end", "… hence every history does."),
+        ("c05s_pending_from_fresh", "c05_pending_from_fresh", "END TO END from a fresh backtest and a broker with no pending exposure, every history: pending exposure per symbol equals the signed quantity of accepted but not yet filled orders, and the map is EMPTY as soon as the exchange holds none of this broker's orders. (Premise rows_total: every date of the dataset has a row — proved of every Penelope dataset, c07_dataset_row_iff_date.)"),
+        ("c05s_with_pending", "c05_with_pending_end_to_end", "holdings-with-pending is holdings plus that signed quantity, and just the holdings for a symbol with nothing outstanding."),
+    ])
+
 IMPF = """From Coq Require Import ZArith NArith List Bool String Floats.
 From Flocq Require Import IEEE754.BinarySingleNaN IEEE754.PrimFloat.
 From Alator Require Import Model.Num Model.Quirks Model.Cost Model.Exchange Model.Uist Model.Broker
